@@ -154,11 +154,15 @@ def body_bed(ch, ctx):
     # every other exon set uses blocks of type 'noncoding_exon' (asked for as a plain string) next to decoy 'exon' children
     stringform = (len(exons) + sum(a + b for a, b in exons)) % 2 == 1
     btype = "noncoding_exon" if stringform else "exon"
-    lines = ["c7\ts\tmRNA\t%d\t%d\t.\t%s\t.\tID=t1" % (ts, te, strand)]
+    # the blocks name both the transcript and its gene: children of g1 at level 1 and, through t1, at level 2
+    lines = ["c7\ts\tgene\t%d\t%d\t.\t%s\t.\tID=g1" % (ts, te, strand), "c7\ts\tmRNA\t%d\t%d\t.\t%s\t.\tID=t1;Parent=g1" % (ts, te, strand)]
     for a, b in exons:
-        lines.append("c7\ts\t%s\t%d\t%d\t.\t%s\t.\tParent=t1" % (btype, a + off, b + off, strand))
+        lines.append("c7\ts\t%s\t%d\t%d\t.\t%s\t.\tParent=t1,g1" % (btype, a + off, b + off, strand))
     if stringform and exons:
         lines.append("c7\ts\texon\t%d\t%d\t.\t%s\t.\tParent=t1" % (exons[0][0] + off, exons[0][0] + off, strand))      # decoy
+        # decoys whose type differs from the one asked for only by case / at the position of an SQL wildcard
+        lines.append("c7\ts\tNoncoding_Exon\t%d\t%d\t.\t%s\t.\tParent=t1" % (exons[-1][1] + off, exons[-1][1] + off, strand))
+        lines.append("c7\ts\tnoncoding-exon\t%d\t%d\t.\t%s\t.\tParent=t1" % (exons[0][0] + off, exons[-1][1] + off, strand))
     for a, b in (reversed(cds) if cds_opt == "first_last_desc" else cds):
         lines.append("c7\ts\t%s\t%d\t%d\t.\t%s\t.\tParent=t1" % (child_type, a, b, strand))
     path = dbutil.write_text(ctx.fresh_dir(), "t.gff", "\n".join(lines) + "\n")
@@ -209,6 +213,18 @@ def body_bed(ch, ctx):
                     et = (str(cds[0][1]), str(cds[-1][0] - 1))
                 ctx.check((fields[6], fields[7]) == et, "bed12-thick-bounds-differ", dict(sig, cds=cds_opt), file=lines,
                           got=[fields[6], fields[7]], expected=list(et))
+    # the same structure asked through the gene: every block is related to it twice (two levels) and still counts once
+    if got is not None and exons:
+        constants.always_return_list = switch
+        try:
+            got_g = db.bed12("g1" if byid == "id" else db["g1"], **kw)
+        except Exception as ex:
+            got_g = "raised %s: %s" % (type(ex).__name__, str(ex)[:120])
+        finally:
+            constants.always_return_list = orig_switch
+        fg, ft_ = got_g.split("\t"), got.split("\t")
+        same = len(fg) == 12 and fg[:3] + fg[4:] == ft_[:3] + ft_[4:] and fg[3] == ("g1" if name_field == "ID" else ".")
+        ctx.check(same, "bed12-field-differs", dict(sig, field="via-gene-related-at-two-levels"), file=lines, got=got_g, transcript_line=got)
     # the alternative converter
     if mode == "thick":
         try:
